@@ -104,7 +104,9 @@ func cmdCheck(args []string) int {
 	}
 	eng.workDir = filepath.Join(tmp, fmt.Sprintf("%s-%d", *prop, os.Getpid()))
 	os.MkdirAll(eng.workDir, 0o755)
-	defer os.RemoveAll(eng.workDir)
+	if !*keep {
+		defer os.RemoveAll(eng.workDir)
+	}
 
 	if err := eng.loadNoEffect(filepath.Join(*verifDir, "contracts", "noeffect.txt")); err != nil {
 		fmt.Fprintln(os.Stderr, "BROKEN:", err)
